@@ -20,6 +20,10 @@ CHECKS = {
  "C17": dict(cat="exploration", tech="bounded-exhaustive round trip parse -> DumpIDL -> parse on a document universe incl. every string <=3 (4) over a 9-symbol alphabet at every literal position",
    text="For every document of the C03 universe, the valid multi-file interplay program, every literal position (17 positions incl. annotations on every node kind, include and cpp_include paths) x every string of length <=3 (thorough 4) over {a \" ' & < # \\ ; space} x both quote styles, doubles at the int64 boundary, argument/throws lists of every length pair 0..3 x 0..3: the dumped text must parse, the re-parsed AST must equal the original field by field (comments excluded, double may become an equal integer), and semantic validity must be preserved.",
    note="Sources the parser rejects are outside the universe. The trimmer binary's -r mode is covered by C16. One recorded finding (odd backslashes before a double quote).", ref="§3 C17"),
+
+ "C14": dict(cat="model_checking", tech="exhaustive enumeration of path lists (all orders/groupings) against a reference trie, plus all strings <=6 (7) over a 13-symbol alphabet and a depth-2 JSON document grammar, on the real fieldmask library",
+   text="(a) every list of <=2 (thorough: also triples) valid paths over three descriptors (struct/list/set/string-map/int-map/other-map fields, ids 63/64/65 and a negative id), white and black, every permutation and a regrouping: NewFieldMask must succeed for clean lists, every type-appropriate query to depth 4 must equal the reference trie, answers must not depend on order/grouping, JSON round trip must preserve every answer and JSON text must be stable; (b) 5.2M (thorough 68M) arbitrary strings through NewFieldMask/GetPath/PathInMask: no panic; (c) ~80k JSON documents with wrong-typed/missing members through UnmarshalJSON/Unmarshal and follow-up use: no panic.",
+   note="Lists mixing '*' with a specific child (or a path end) at one position are only checked for panics (the property exempts them from order independence). '.*' with a continuation on a struct and by-id spelling of negative ids are outside the valid-path grammar. JSON stability across map-iteration orders is part of C07's engine, not of this check.", ref="§3 C14, App. A.2"),
 }
 NA = {}
 def main():
